@@ -224,9 +224,11 @@ class UDPMessageDeserializer:
             # If it has a null terminator, let's try to decode it first.
             # We don't want to do this if there isn't one, because that may change
             # the meaning of the data.
-            if unpacked_data.endswith(b"\x00"):
+            # Only strip the terminator itself: with further trailing nulls the value
+            # would no longer re-encode to the same bytes, leave those as stringy bytes.
+            if unpacked_data.endswith(b"\x00") and not unpacked_data.endswith(b"\x00\x00"):
                 try:
-                    return unpacked_data.decode("utf8").rstrip("\x00")
+                    return unpacked_data[:-1].decode("utf8")
                 except UnicodeDecodeError:
                     pass
             # Failed, return jank stringy bytes
